@@ -8,7 +8,8 @@ THDR = "From Whawty Require Import Names Record Store StoreSpec StoreTrace Crash
 
 
 def traces(prop, seed, tier):
-    return tracedriver.gen_cases(prop, seed, tier)
+    # undisturbed runs plus every single injected I/O error: whatever is acknowledged must be durable
+    return tracedriver.gen_cases(prop, seed, tier, want_faults=True)
 
 
 CONFIG = dict(
